@@ -346,7 +346,8 @@ class Result:
             path = os.path.join(REPLAYS, '%s-%s.json' % (self.pid, h))
             with open(path, 'w') as f:
                 json.dump({'property': self.pid, 'sig': v['sig'], 'what': v['what'], 'replay': v['replay'],
-                           'no_failing_input_found': v['no_input'], 'seed': self.seed, 'tier': self.tier}, f, indent=1)
+                           'no_failing_input_found': v['no_input'], 'seed': self.seed, 'tier': self.tier}, f, indent=1,
+                          default=lambda o: sorted(o) if isinstance(o, (set, frozenset)) else str(o))
             line = 'VIOLATION property=%s replay=%s' % (self.pid, path)
             if v['no_input']:
                 line += ' no-failing-input-found'
